@@ -478,7 +478,7 @@ func readDnsMsgFromBufio(reader *bufio.Reader, timeout time.Duration, conn net.C
 	}
 
 	// Now read and consume the full message (length prefix + data)
-	fullData, err := reader.Peek(int(2 + length))
+	fullData, err := reader.Peek(2 + int(length))
 	if err != nil {
 		return nil, 0, err
 	}
